@@ -78,7 +78,7 @@ ISHIFTS = {'lshift': operator.ilshift, 'rshift': operator.irshift}
 BITSTRING_KINDS = ['Bits', 'BitArray', 'ConstBitStream', 'BitStream']
 PROMOTABLE = ['str', 'hexstr', 'bytes', 'bytearray', 'memoryview', 'list', 'tuple', 'gen', 'truthy', 'truthy-iter', 'bitarray']
 REFLECTABLE = {'str', 'hexstr', 'bytes', 'bytearray', 'memoryview', 'list', 'tuple', 'gen', 'truthy', 'truthy-iter'}
-ROUTES = ['bin', 'bin', 'slice', 'bytes', 'auto']
+ROUTES = ['bin', 'bin', 'slice', 'bytes', 'auto', 'file', 'file-limited']
 UINT_LIMIT = 257
 
 
@@ -158,6 +158,19 @@ def _build_receiver(c, bits=None):
         s = cls(bytes=int(padded, 2).to_bytes(len(padded) // 8, 'big'), offset=off, length=len(a))
     elif route == 'auto' and len(a) <= 200:
         s = cls('0b' + a)
+    elif route in ('file', 'file-limited'):
+        # backed by a file (memory-mapped while it stays whole); 'file-limited' is the first len(a) bits of a longer file
+        import os
+        import tempfile
+        tail = '' if (route == 'file' and len(a) % 8 == 0) else '1' * (-len(a) % 8) + '10110111' * 2
+        raw = a + tail
+        fd, path = tempfile.mkstemp(prefix='rv_c16_')
+        try:
+            os.write(fd, int(raw, 2).to_bytes(len(raw) // 8, 'big'))
+            os.close(fd)
+            s = cls(filename=path) if not tail else cls(filename=path, length=len(a))
+        finally:
+            os.unlink(path)
     else:
         s = cls(bin=a)
     p = c.get('pos')
